@@ -29,4 +29,8 @@ def run(ctx):
     obs += cp.options_untouched_rule(ctx, 'C08')
     # class names are rewritten exactly in class positions when a prefix is configured (shared with C09)
     obs += [o for o in cp.class_only_rule(ctx, 'C08') if '.only/condition' in o['key']]
+    # wave 10: an at-rule ends at its block or its `;` on every path through the prelude loop
+    obs += cp.at_prelude_terminators_rule(ctx, 'C08')
+    # an rpx length stays a dimension: the conversion builds its token only under the unit test, nothing else (shared with C10)
+    obs += [o for o in cp.rpx_rules(ctx, 'C08') if '.expr/unit-test' in o['key']]
     return obs
